@@ -32,7 +32,8 @@ def sweep_impl(rep, tier, seed):
             for nchans, nsamps in ((8, 1), (8, 5), (16, 9)):
                 hi = (1 << nbits) if nbits < 32 else 200
                 vals = rng.integers(0, min(hi, 60000), nsamps * nchans)
-                for dt in (np.uint8, np.uint16, np.int64, np.float32, np.float64):
+                # incl. arrays of the file's width but another kind / byte order (int32, uint32 and >f4 into 32 bits, >u2 into 16)
+                for dt in (np.uint8, np.uint16, np.int64, np.float32, np.float64, np.int32, np.uint32, np.dtype(">f4"), np.dtype(">u2")):
                     if vals.max() > np.iinfo(np.uint8).max and dt == np.uint8:
                         arr = (vals % 256).astype(dt)
                     else:
@@ -130,7 +131,7 @@ def sweep_impl(rep, tier, seed):
 
 
 def sweep(tier, seed):
-    rep = Report(dict(depths=[1, 2, 4, 8, 16, 32], dtypes=["uint8", "uint16", "int64", "float32", "float64"],
+    rep = Report(dict(depths=[1, 2, 4, 8, 16, 32], dtypes=["uint8", "uint16", "int64", "float32", "float64", "int32", "uint32", ">f4", ">u2"],
                       shapes=[(8, 1), (8, 5), (16, 9)]))
     sweep_impl(rep, tier, seed)
     return rep
